@@ -80,12 +80,12 @@ Proof.
   destruct (key_eqb_spec k k0) as [->|]; [tauto|]. apply IH; tauto.
 Qed.
 
-Definition merge_bins (x y : bins) : bins :=
-  fold_left (fun m kv => alter (fst kv) (fun o => merge_summ (or_new o) (snd kv)) m) y x.
+Definition merge_bins (sc : Z) (x y : bins) : bins :=
+  fold_left (fun m kv => alter (fst kv) (fun o => merge_summ (or_new sc o) (snd kv)) m) y x.
 
-Lemma merge_bins_lookup k y : forall x, NoDup (map fst y) ->
-  lookup k (merge_bins x y) =
-  match lookup k y with Some h => Some (merge_summ (or_new (lookup k x)) h) | None => lookup k x end.
+Lemma merge_bins_lookup sc k y : forall x, NoDup (map fst y) ->
+  lookup k (merge_bins sc x y) =
+  match lookup k y with Some h => Some (merge_summ (or_new sc (lookup k x)) h) | None => lookup k x end.
 Proof.
   unfold merge_bins. induction y as [|[k0 h] y IH]; intros x ND; simpl; [reflexivity|].
   inversion ND as [|? ? NI ND']; subst. rewrite IH by assumption. rewrite lookup_alter. simpl.
@@ -93,7 +93,7 @@ Proof.
   rewrite (lookup_notin k0 y NI). reflexivity.
 Qed.
 
-Lemma merge_bins_nodup y : forall x, NoDup (map fst x) -> NoDup (map fst (merge_bins x y)).
+Lemma merge_bins_nodup sc y : forall x, NoDup (map fst x) -> NoDup (map fst (merge_bins sc x y)).
 Proof.
   unfold merge_bins. induction y as [|[k0 h] y IH]; intros x ND; simpl; [assumption|].
   apply IH. apply alter_nodup. assumption.
@@ -104,12 +104,12 @@ Qed.
 Definition odesc (c : bool) (o : option summ) (vs : list Z) (ne : N) : Prop :=
   match o with Some s => sdesc c s vs ne | None => vs = [] /\ ne = 0%N end.
 
-Lemma odesc_or_new c o vs ne : odesc c o vs ne -> sdesc c (or_new o) vs ne.
+Lemma odesc_or_new sc c o vs ne : odesc c o vs ne -> sdesc c (or_new sc o) vs ne.
 Proof. destruct o; simpl; [auto|]. intros [-> ->]. apply sdesc_new. Qed.
 
-Lemma odesc_merge c ox vx nx oy vy ny :
+Lemma odesc_merge sc c ox vx nx oy vy ny :
   odesc c ox vx nx -> odesc c oy vy ny ->
-  odesc c (match oy with Some h => Some (merge_summ (or_new ox) h) | None => ox end) (vx ++ vy) (nx + ny).
+  odesc c (match oy with Some h => Some (merge_summ (or_new sc ox) h) | None => ox end) (vx ++ vy) (nx + ny).
 Proof.
   intros X Y. destruct oy as [h|]; simpl in *.
   - apply sdesc_merge; [apply odesc_or_new|]; assumption.
@@ -164,12 +164,12 @@ Proof.
                  odesc (collect_samples q) o (vs ++ bin_vals q (kb, kt) [d]) (ne + bin_ne q (kb, kt) [d])).
   { intros o H -> ->. rewrite app_nil_r, N.add_0_r. exact H. }
   assert (Ins : forall v, bin_vals q (kb, kt) [d] = [v] -> bin_ne q (kb, kt) [d] = 0%N ->
-                sdesc (collect_samples q) (insert_val (collect_samples q) v (or_new (lookup (kb, kt) (a_bins st))))
+                sdesc (collect_samples q) (insert_val (collect_samples q) v (or_new (q_scale q) (lookup (kb, kt) (a_bins st))))
                       (vs ++ bin_vals q (kb, kt) [d]) (ne + bin_ne q (kb, kt) [d])).
   { intros v -> ->. rewrite N.add_0_r. eapply sdesc_perm; [apply Permutation_cons_append|].
     apply sdesc_insert. apply odesc_or_new. exact O. }
   assert (Ne : bin_vals q (kb, kt) [d] = [] -> bin_ne q (kb, kt) [d] = 1%N ->
-               sdesc (collect_samples q) (add_ne (or_new (lookup (kb, kt) (a_bins st))))
+               sdesc (collect_samples q) (add_ne (or_new (q_scale q) (lookup (kb, kt) (a_bins st))))
                      (vs ++ bin_vals q (kb, kt) [d]) (ne + bin_ne q (kb, kt) [d])).
   { intros -> ->. rewrite app_nil_r. apply sdesc_add_ne. apply odesc_or_new. exact O. }
   unfold step. unfold bin_vals, bin_ne, count, opt_is, is_none in *. cbn [flat_map filter fst snd app length] in *.
@@ -221,10 +221,10 @@ Qed.
 Fixpoint eval_tree_direct (q : query) (t : mtree) : aggs :=
   match t with
   | Leaf ds => frac_direct q ds
-  | Node l r => merge_aggs (eval_tree_direct q l) (eval_tree_direct q r)
+  | Node l r => merge_aggs (q_scale q) (eval_tree_direct q l) (eval_tree_direct q r)
   end.
 
-Lemma merge_aggs_bins x y : a_bins (merge_aggs x y) = merge_bins (a_bins x) (a_bins y).
+Lemma merge_aggs_bins sc x y : a_bins (merge_aggs sc x y) = merge_bins sc (a_bins x) (a_bins y).
 Proof. reflexivity. Qed.
 
 Lemma agg_exact_field q t : is_field_func (q_func q) = true ->
